@@ -157,6 +157,15 @@ class FPCase(object):
             fi = rng.permutation(self.h.n_top)[:k_fix]
             self.fixed_pop[fi] = True
             self.fixed_vals = np.real(z0[self.h.n_bottom:]).astype(float)
+        self.pre_sens = None
+        u_ = rng.random()
+        if u_ < 0.12:
+            self.pre_sens = 'all'
+        elif u_ < 0.3:
+            mech_ = ['a%d' % (i + 1) for i in range(self.n_out)] + ['k', 'b']
+            k_ = int(rng.integers(1, len(mech_)))
+            self.pre_sens = tuple(
+                mech_[i] for i in sorted(rng.permutation(len(mech_))[:k_]))
         self.n_pop = int(np.sum(~self.fixed_pop))
         self.n_top = self.n_pop + (self.n_out if self.sigma_free else 0)
         self.prior_mu = rng.uniform(0.2, 0.6, size=self.n_top)
@@ -167,6 +176,12 @@ class FPCase(object):
         model.tap = True
         model.share_calls = True
         self.user_model = model
+        # the user's model may arrive with sensitivities switched on, for
+        # all parameters or for a subset
+        if self.pre_sens == 'all':
+            model.enable_sensitivities(True)
+        elif self.pre_sens is not None:
+            model.enable_sensitivities(True, list(self.pre_sens))
         flt = c12.make_filter(self.fname, self.obs.copy(), self.k)
         pm = GP.build_chi(self.leaves, self.n_s, nest=self.nest)
         if self.reduced_top:
@@ -439,6 +454,18 @@ def posterior_case(ctx, rng, idx, special_mode=None):
         return
     ctx.count('constructed')
     xs = [case.point(rng) for _ in range(3)]
+    # the very first evaluation of a fresh posterior may be the one with
+    # sensitivities (a gradient-based sampler): it is compared below with
+    # the same call after plain evaluations
+    first_s1 = None
+    if idx % 3 == 0:
+        try:
+            first_s1 = post.evaluateS1(xs[0].copy())
+        except Exception as e:      # noqa
+            ctx.violation_exc('evaluateS1_raises', e,
+                              {'case': case.describe(),
+                               'call': 'first evaluation'}, feats)
+            return
     offsets, vals = [], []
     for x in xs:
         x.setflags(write=False)
@@ -465,6 +492,19 @@ def posterior_case(ctx, rng, idx, special_mode=None):
                       {'values': vals, 'offsets': offsets,
                        'case': case.describe()}, feats)
         return
+    if first_s1 is not None:
+        again = post.evaluateS1(xs[0].copy())
+        ctx.count('first_call_with_sensitivities')
+        g0, g1 = np.asarray(first_s1[1], float), np.asarray(again[1], float)
+        if not (ctx.close(first_s1[0], again[0], rtol=1e-12, scale=sc) and
+                g0.shape == g1.shape and ctx.close(
+                    g0, g1, rtol=1e-9, scale=1 + float(np.max(np.abs(g1))))):
+            ctx.violation('gradient_vs_complex_step',
+                          'first_evaluateS1_differs_from_later_one',
+                          {'first': g0, 'after plain evaluations': g1,
+                           'scores': [first_s1[0], again[0]],
+                           'case': case.describe()}, feats)
+            return
     # one work vector overwritten in place between evaluations gives what
     # the fresh vectors gave
     w = np.array(xs[0], dtype=float)
@@ -525,6 +565,31 @@ def posterior_case(ctx, rng, idx, special_mode=None):
                       {'chi': grad, 'reference': g_ref, 'worst': bad,
                        'names': post.get_parameter_names(),
                        'case': case.describe()}, feats)
+    # a simulated individual outside the support of its population model
+    # (a negative value under a log-normal / truncated Gaussian model): the
+    # score returned with the sensitivities is the value
+    h_ = case.h
+    off = 0
+    for l in case.leaves:
+        if l.kind in 'LT' and l.centered and l.n_hdim():
+            xb = np.array(x, dtype=float)
+            xb[case.n_top + off] = -abs(xb[case.n_top + off]) - 0.1
+            try:
+                with np.errstate(all='ignore'):
+                    vb = post(xb)
+                    sb = post.evaluateS1(xb)[0]
+                ctx.count('rejected_points_compared')
+                if not (vb == sb or (vb != vb and sb != sb)):
+                    ctx.violation('s1_score_equals_value',
+                                  's1_score_mismatch_at_rejected_point',
+                                  {'value': vb, 's1': sb,
+                                   'case': case.describe()}, feats)
+            except Exception as e:      # noqa
+                ctx.violation_exc('evaluateS1_raises', e,
+                                  {'case': case.describe(),
+                                   'call': 'rejected point'}, feats)
+            break
+        off += l.n_hdim()
     if idx % 2 == 0:
         _names(ctx, case, np.array(x), rng)
     # ---- the same whole-numbered point as float64 / integer-typed / list
